@@ -1,14 +1,19 @@
 #!/bin/bash
-# usage: seeds_check.sh [Cxx ...]  - every stored seed of the given properties (default: all) must still be reported (rc=1) by its property's quick check
+# usage: seeds_check.sh [Cxx ...]  - every stored seed (of the given properties; default all) must still be reported (rc=1) by the checks recorded as detecting it in its meta.json
 WANT="$@"
 BAD=0
 for d in /verif/seeded/s*/; do
   id=$(basename $d); prop=$(echo $id | cut -d_ -f2)
   if [ -n "$WANT" ] && ! echo " $WANT " | grep -q " $prop "; then continue; fi
+  DET=$(/venv/bin/python -c "import json,sys; m=json.load(open('$d/meta.json')); print(' '.join(x.split(':')[0] for x in m.get('detection',[]) if x.endswith('rc=1')) or '$prop')")
   git -C /repo apply $d/patch.diff 2>/dev/null || git -C /repo apply --3way $d/patch.diff 2>/dev/null || { echo "$id PATCH DOES NOT APPLY"; git -C /repo reset -q --hard HEAD; BAD=1; continue; }
-  /venv/bin/python /verif/check $prop --no-write >/tmp/seedchk.out 2>&1; RC=$?
+  OKS=""
+  for c in $DET; do
+    /venv/bin/python /verif/check $c --no-write >/tmp/seedchk.out 2>&1; RC=$?
+    if [ $RC -ne 1 ]; then echo "$id NOT DETECTED by $c rc=$RC"; grep "ANALYSIS" /tmp/seedchk.out | cut -c1-200; BAD=1; else OKS="$OKS $c"; fi
+  done
   git -C /repo reset -q --hard HEAD
-  if [ $RC -ne 1 ]; then echo "$id NOT DETECTED rc=$RC"; grep "ANALYSIS" /tmp/seedchk.out | cut -c1-200; BAD=1; else echo "$id ok"; fi
+  echo "$id ok:$OKS"
 done
 git -C /repo status --short | head -3
 exit $BAD
